@@ -401,20 +401,23 @@ storeBlock waits at the persist back-pressure while the persisting routine flush
 `GInv` is the node invariant with GC floors (records from a block floor on, pages from a page floor on, both floors
 below what HeaderHashes.init reads at restart). -/
 
-/-- **crash_prefix_consistent_gc** — `crash_prefix_consistent` for the whole schedule language. For every chain
-content, every configuration (any positive MaxTraceableBlocks, any GarbageCollectionPeriod), every schedule of
-header/block/flush steps, transfer/MPT GC commits, whole tryRunGC runs (with any previous persisted height) and
-AddBlocks with a flush during their back-pressure wait, and every prefix `k` of the list of atomic batches — including
-the point between the two direct commits of one GC run, the flush that carries the block deletions and the flush that
-happens while a block waits — reopening succeeds, the recovered node satisfies `GInv` (tip pointers, state roots of all
-heights up to its own, storage snapshot, header records and pages above the GC floors), is not above the running
-node and has `items = itemsAt H height`. -/
-theorem crash_prefix_consistent_gc (H : Hist) {B : Nat} (S : Nat) (cfg : GcCfg) (hB : 1 < B) (hm : 0 < cfg.mtb)
-    (ops : List GOp) (k : Nat) (hk : k ≤ (grun H B cfg ops).2.length) :
+/-- **crash_prefix_consistent_gc_partial** — `crash_prefix_consistent` for the whole schedule language, except
+in-block flushes on a reference-counting MPT. For every chain content, every configuration (any positive
+MaxTraceableBlocks, any GarbageCollectionPeriod), every schedule of header/block/flush steps, transfer/MPT GC commits,
+whole tryRunGC runs (with any previous persisted height) and AddBlocks with a flush during their back-pressure wait
+(`blockWait`), and every prefix `k` of the list of atomic batches — including the point between the two direct commits
+of one GC run, the flush that carries the block deletions and the flush that happens while a block waits — reopening
+succeeds, the recovered node satisfies `GInv` (tip pointers, state roots of all heights up to its own, storage
+snapshot, header records and pages above the GC floors), is not above the running node and has
+`items = itemsAt H height`.
+Full statement: the same for schedules that also contain `blockWaitRC` steps (the in-block flush as the code behaves
+when the MPT counts references). It is FALSE: `rc_flush_inside_block_breaks_restart`. -/
+theorem crash_prefix_consistent_gc_partial (H : Hist) {B : Nat} (S : Nat) (cfg : GcCfg) (hB : 1 < B) (hm : 0 < cfg.mtb)
+    (ops : List GOp) (hno : ∀ o ∈ ops, o.leaky = false) (k : Nat) (hk : k ≤ (grun H B cfg ops).2.length) :
     ∃ n' fb fp, recover H B S (foldBatches ((grun H B cfg ops).2.take k) Db.empty) = .ok n' ∧
       GInv H B fb fp n' ∧ n'.height ≤ (grun H B cfg ops).1.n.height ∧
       n'.items = itemsAt H n'.height ∧ n'.hdrHeight ≥ n'.height := by
-  have h := gprefix_ok cfg hB hm (gstate_fresh H hB) ops k hk
+  have h := gprefix_ok cfg hB hm (gstate_fresh H hB) ops hno k hk
   rcases h with he | ⟨m, fb, fp, m1, m2, m3, m4, _⟩
   · have he' : foldBatches ((grun H B cfg ops).2.take k) Db.empty = Db.empty := he
     rw [he']
@@ -448,10 +451,10 @@ example : (grun Hgc 2 ⟨1, 1⟩ gcGood).2.length = 5 ∧
 any further schedule including GC runs and blocks that wait during a flush, the state root stored for every height
 reached is the canonical one. -/
 theorem continue_same_roots_gc (H : Hist) {B : Nat} (cfg : GcCfg) (hB : 1 < B) (hm : 0 < cfg.mtb) (g : GNode) (fb fp : Nat)
-    (hn : GInv H B fb fp g.n) (hc : g.n.cache = []) (ops' : List GOp) (i : Nat)
+    (hn : GInv H B fb fp g.n) (hc : g.n.cache = []) (ops' : List GOp) (hno : ∀ o ∈ ops', o.leaky = false) (i : Nat)
     (hi : i ≤ (grunFrom H B cfg g ops').1.n.height) :
     (grunFrom H B cfg g ops').1.n.view (Key.root i) = some (Val.rootv (H.hashOf (itemsAt H i))) := by
-  obtain ⟨_, _, h⟩ := (gstate_grunFrom cfg hB hm (gstate_of_ginv hn hc) ops').run
+  obtain ⟨_, _, h⟩ := (gstate_grunFrom cfg hB hm (gstate_of_ginv hn hc) ops' hno).run
   exact h.rt i hi
 
 /-- **gc_run_crash_safe** (`gc_crash_safe` for a whole tryRunGC): on a consistent stopped-at-a-flush node
@@ -513,6 +516,19 @@ theorem flush_during_wait_atomic (H : Hist) (B : Nat) (n : Node) (hle : n.height
 example : (match (blockWait Hgc 2 (run Hgc 2 [.block, .block]).1).2 with
     | some b => decide (applyBatch b Db.empty Key.curBlock = some (Val.ptr 2)) && decide (applyBatch b Db.empty (Key.exec 3) = some (Val.hdr 3))
     | none => false) = true := by decide
+
+/-- **the code violates the full statement on a node whose MPT counts references** (genuine defect, known finding
+rcwait-continue-addblock): one block in the write cache, the second AddBlock waits and a flush happens. With the
+atomic merge (`blockWait`) the batch reopens at height 1; as the code behaves with a reference-counting MPT
+(`blockWaitRC`: Trie.updateRefCount rewrites the released nodes of state 1 in place inside the shared write cache)
+the same batch leaves tip 1 without a loadable state 1. -/
+theorem rc_flush_inside_block_breaks_restart :
+    (grun Hgc 2 ⟨1, 1⟩ [.base .block, .blockWait]).2.length = 1 ∧
+    errOf (recover Hgc 2 1 (foldBatches (grun Hgc 2 ⟨1, 1⟩ [.base .block, .blockWait]).2 Db.empty)) = none ∧
+    (grun Hgc 2 ⟨1, 1⟩ [.base .block, .blockWaitRC]).2.length = 1 ∧
+    foldBatches (grun Hgc 2 ⟨1, 1⟩ [.base .block, .blockWaitRC]).2 Db.empty Key.curBlock = some (Val.ptr 1) ∧
+    errOf (recover Hgc 2 1 (foldBatches (grun Hgc 2 ⟨1, 1⟩ [.base .block, .blockWaitRC]).2 Db.empty)) = some .noRoot := by
+  decide
 
 /-- **regression example for fix 2cd5b80** (the rule removeOldHeaderHashes had before: `gcRunOld`, pages up to
 ((tgt+1)/B - 1)*B whatever the persisted header height). B = 2, MaxTraceableBlocks = 1, GCP = 1, four blocks and a
